@@ -26,7 +26,7 @@ RULE = (
     "step or wrong-typed bounds. Non-trivial = len >= 2, bytes per sample > 1 and a negative or out-of-range bound."
 )
 MUST_HIT = ["view_samples", "view_seconds", "view_millis", "type_error", "negative_bound", "out_of_range", "empty_region",
-            "huge_int", "region_length_around_power_of_two"]
+            "huge_int", "region_length_around_power_of_two", "view_of_temporary_region"]
 ASSUMPTIONS = ["floats beyond 1e15 seconds are not generated (t*rate overflows the sample index space)"]
 BOUNDS = {"quick": dict(n=700, maxlen=12), "thorough": dict(n=15000, maxlen=16)}
 
@@ -70,7 +70,18 @@ def check_case(case, rec):
         raise Violation(f"len(region) {len(region)} != {N} samples", case)
     if region.duration != N / sr:
         raise Violation(f"duration {region.duration!r} != {N}/{sr}", case)
-    target = {"samples": region, "seconds": region.seconds, "millis": region.millis}[view]
+    if case.get("temp") and view != "samples":
+        # the view of a region nobody else holds on to (e.g. region[a:b].seconds): it must keep working
+        import gc
+
+        tmp = auditok.AudioRegion(data, sr, sw, ch)
+        target = tmp.seconds if view == "seconds" else tmp.millis
+        del tmp
+        if case["temp"] == "gc":
+            gc.collect()
+        classes.add("view_of_temporary_region")
+    else:
+        target = {"samples": region, "seconds": region.seconds, "millis": region.millis}[view]
     ok_types = {"samples": (int,), "seconds": (int, float), "millis": (int,)}[view]
     bad = step is not None or any(x is not None and not isinstance(x, ok_types) for x in (a, b))
     if N == 0:
@@ -134,6 +145,8 @@ def explicit_cases():
         dict(base, view="samples", a=2, b=-9),
         dict(base, view="samples", a=-(10**30), b=10**30),
         dict(base, view="seconds", a=0.25, b=0.55),
+        dict(base, view="seconds", a=0.25, b=0.55, temp="gc"),
+        dict(base, view="millis", a=100, b=-100, temp="drop"),
         dict(base, view="seconds", a=-0.3, b=1e15),
         dict(base, view="millis", a=150, b=-100),
         dict(base, view="samples", a=1, b=5, step=1),
@@ -193,7 +206,7 @@ def strategy(draw):
             a = draw(wrong)
         else:
             b = draw(wrong)
-    return dict(base, view=view, a=a, b=b, step=step)
+    return dict(base, view=view, a=a, b=b, step=step, temp=draw(st.sampled_from([None, None, "drop", "gc"])))
 
 
 MS_RATES = (8, 10, 100, 160, 1000, 8000, 11025, 16000, 44100, 48000)
